@@ -56,7 +56,13 @@ func c15Check(t failer, test string, in []byte) (bool, map[string]int) {
 				violation(t, "C15", test, c, "grammar.Parse panicked on %s: %v", c.InputQ, r)
 			}
 		}()
-		got, err = grammar.Parse("", in)
+		// the parser gets a buffer of its own, which the caller re-uses (overwrites) as soon as Parse has
+		// returned - a scanner's line buffer: the tree must not depend on it any more
+		buf := append([]byte(nil), in...)
+		got, err = grammar.Parse("", buf)
+		for i := range buf {
+			buf[i] = '#'
+		}
 	}()
 	if (err == nil) != want.Accepted {
 		violation(t, "C15", test, c, "input %s: parser says accepted=%v (err: %v), the reference grammar says accepted=%v (%v)", c.InputQ, err == nil, err, want.Accepted, want.Reasons)
